@@ -352,6 +352,9 @@ func c11Run(c *Ctx) {
 		Lines(Var("a", "[1, 2, 3]"), "a[1] = a;", "a[0] = 9;", Print("a[1][0]"), Print("a[1][1][0]"), "a[1][2] = 7;", Print("a[2]"), Print(BI("len", "a[1]")), Print("a[1] == a")),
 		Lines(Var("head", "[5, nil]"), "head[1] = head;", Var("al", "head"), "al[0] = 6;", Print("head[1][1][0]"), Fun("setboth", "x, y", " x[0] = y; y[0] = 8; "+Ret("x[0][0]")+" "), Var("s", "[0]"), Print("setboth(s, s)"), Print("s[0] == s"), Print("s[0][0][0] == s")),
 	)
+	// a parameter spelled like its own function still holds the array that was passed
+	selfAppend = append(selfAppend,
+		Lines(Fun("total", "total", " total[0] = 9; "+Ret(BI("len", "total")+" + total[0]")+" "), Var("xs", "[1, 2, 3]"), Print("total(xs)"), Print("xs"), Var("grid", "[[0], [5, 6]]"), Print("total(grid[1])"), Print("grid"), Var("box", "{items: [7]}"), Print("total(box.items)"), Print("box")))
 	// recursion through one call expression in a later argument, run more than once: what এড / the callee receives is what was passed
 	selfAppend = append(selfAppend,
 		Lines(Fun("chain", "n", " "+If("n == 0", "{ "+Ret("[]")+" }")+" "+Ret(BI("append", "[n]", "chain(n - 1)"))+" "), Print("chain(3)"), Print("chain(3)"), Print("chain(2)")),
